@@ -14,6 +14,7 @@ type verifWorld struct {
 	hs    []*verifHandle
 	dirs  []string
 	names []string
+	clash bool
 }
 
 func verifNewWorld(ndirs int) *verifWorld {
@@ -28,6 +29,13 @@ func verifNewWorld(ndirs int) *verifWorld {
 		w.dirfs.Mkdir(d)
 	}
 	return w
+}
+
+// assert is verifAssert outside the region of the recorded finding C12/atomiccreate-staging-name:
+// once AtomicCreate(d, n) has run while a user file n+".tmp" existed in d (or had an open
+// descriptor), DirFs has truncated and renamed that file and the two file systems differ.
+func (w *verifWorld) assert(label string, c bool) {
+	verifAssertExcept(label, c, "C12/atomiccreate-staging-name", w.clash)
 }
 
 func (w *verifWorld) pickDir() string  { return w.dirs[verifChoose(len(w.dirs))] }
@@ -55,8 +63,8 @@ func (w *verifWorld) step(maxData int) {
 		var mf, df File
 		var mok, dok bool
 		w.valid("create", func() { mf, mok = w.mem.Create(d, n) }, func() { df, dok = w.dirfs.Create(d, n) })
-		verifAssert("create/mem-ok", mok == rok)
-		verifAssert("create/dir-ok", dok == rok)
+		w.assert("create/mem-ok", mok == rok)
+		w.assert("create/dir-ok", dok == rok)
 		if rok {
 			w.hs = append(w.hs, &verifHandle{mem: mf, dir: df, ref: rd})
 		}
@@ -67,7 +75,7 @@ func (w *verifWorld) step(maxData int) {
 		keep := verifClone(data)
 		w.ref.appendTo(h.ref, data)
 		w.valid("append", func() { w.mem.Append(h.mem, data) }, func() { w.dirfs.Append(h.dir, data) })
-		verifAssert("append/arg-untouched", verifBytesEq(data, keep))
+		w.assert("append/arg-untouched", verifBytesEq(data, keep))
 		if len(data) > 0 { // the implementation must not retain the caller's slice
 			data[0] ^= 0xff
 		}
@@ -107,16 +115,19 @@ func (w *verifWorld) step(maxData int) {
 		rok := w.ref.link(od, on, nd, nn)
 		var mok, dok bool
 		w.valid("link", func() { mok = w.mem.Link(od, on, nd, nn) }, func() { dok = w.dirfs.Link(od, on, nd, nn) })
-		verifAssert("link/mem-ok", mok == rok)
-		verifAssert("link/dir-ok", dok == rok)
+		w.assert("link/mem-ok", mok == rok)
+		w.assert("link/dir-ok", dok == rok)
 		verifCover("c12/link")
 	case 7: // AtomicCreate
 		d, n := w.pickDir(), w.pickName()
 		data := verifNondetBytes("adata", verifChoose(maxData+1))
 		keep := verifClone(data)
+		if w.ref.exists(d, n+".tmp") {
+			w.clash = true
+		}
 		w.ref.atomicCreate(d, n, data)
 		w.valid("atomiccreate", func() { w.mem.AtomicCreate(d, n, data) }, func() { w.dirfs.AtomicCreate(d, n, data) })
-		verifAssert("atomiccreate/arg-untouched", verifBytesEq(data, keep))
+		w.assert("atomiccreate/arg-untouched", verifBytesEq(data, keep))
 		if len(data) > 0 {
 			data[0] ^= 0xff
 		}
@@ -131,8 +142,8 @@ func (w *verifWorld) step(maxData int) {
 func (w *verifWorld) valid(op string, mem, dir func()) {
 	pm := verifTry(mem)
 	pd := verifTry(dir)
-	verifAssert(op+"/mem-accepts-valid-call", !pm)
-	verifAssert(op+"/dir-accepts-valid-call", !pd)
+	w.assert(op+"/mem-accepts-valid-call", !pm)
+	w.assert(op+"/dir-accepts-valid-call", !pd)
 	verifAssume(verifAnd(!pm, !pd))
 }
 
@@ -149,8 +160,8 @@ func (w *verifWorld) readAt(h *verifHandle, off, length uint64) {
 	want := w.ref.readAt(h.ref, off, length)
 	var gm, gd []byte
 	w.valid("readat", func() { gm = w.mem.ReadAt(h.mem, off, length) }, func() { gd = w.dirfs.ReadAt(h.dir, off, length) })
-	verifAssert("readat/mem", verifBytesEq(gm, want))
-	verifAssert("readat/dir", verifBytesEq(gd, want))
+	w.assert("readat/mem", verifBytesEq(gm, want))
+	w.assert("readat/dir", verifBytesEq(gd, want))
 	if len(gm) > 0 { // returned slices are caller-owned
 		gm[0] ^= 0xff
 	}
@@ -163,8 +174,8 @@ func (w *verifWorld) list(d string) {
 	want := verifJoin(w.ref.list(d))
 	var lm, ld []string
 	w.valid("list", func() { lm = w.mem.List(d) }, func() { ld = w.dirfs.List(d) })
-	verifAssert("list/mem", verifJoin(verifSorted(lm)) == want)
-	verifAssert("list/dir", verifJoin(verifSorted(ld)) == want)
+	w.assert("list/mem", verifJoin(verifSorted(lm)) == want)
+	w.assert("list/dir", verifJoin(verifSorted(ld)) == want)
 }
 
 // observe compares everything still observable: listings, and the full content of every name.
@@ -193,6 +204,17 @@ func verifC12History(k, ndirs, maxData int) {
 	w := verifNewWorld(ndirs)
 	for i := 0; i < k; i++ {
 		w.step(maxData)
+	}
+	w.observe()
+	verifCover("c12/history")
+}
+
+// names that look like AtomicCreate's staging files, hidden files, and names with extensions
+func verifC12OddNames() {
+	w := verifNewWorld(1)
+	w.names = [][]string{{"a", "a.tmp"}, {".tmp", "b.txt"}, {".a", "a~"}}[verifChoose(3)]
+	for i := 0; i < 2; i++ {
+		w.step(1)
 	}
 	w.observe()
 	verifCover("c12/history")
